@@ -787,6 +787,7 @@ pub fn explore_first_use(rep: &mut Report, id: &str, bound: usize, thorough: boo
 
 pub fn fold_stats(rep: &mut Report, id: &str, what: &str, bound: usize, stats: ExploreStats) {
     rep.extra_states += stats.schedules;
+    rep.nontrivial += stats.schedules;
     rep.transitions += stats.transitions;
     rep.executions += stats.schedules;
     rep.validated += stats.schedules;
